@@ -63,19 +63,25 @@ func verifyCaveats(caveats []string, userID string) error {
 	var verified uint8
 	now := time.Now().Unix()
 
+	// A macaroon can be extended by whoever holds it, so every caveat must
+	// hold and each of the three may appear only once; a repeated or failing
+	// caveat is treated like an unknown one.
+	mark := func(bit uint8, ok bool) {
+		if !ok || verified&bit != 0 {
+			bit = 8
+		}
+		verified |= bit
+	}
+
 LoopCaveat:
 	for _, caveat := range caveats {
 		switch {
 		case caveat == Gen:
-			verified |= 1
+			mark(1, true)
 		case strings.HasPrefix(caveat, UserPrefix):
-			if caveat[len(UserPrefix):] == userID {
-				verified |= 2
-			}
+			mark(2, caveat[len(UserPrefix):] == userID)
 		case strings.HasPrefix(caveat, TimePrefix):
-			if verifyExpiry(caveat[len(TimePrefix):], now) {
-				verified |= 4
-			}
+			mark(4, verifyExpiry(caveat[len(TimePrefix):], now))
 		default:
 			verified |= 8
 			break LoopCaveat
